@@ -2117,9 +2117,11 @@ class LetMacro(Macro):
 
         body = goal.lhs
         xs = []
+        let_tm = dict()
         while body != last_step.lhs and body.is_let():
-            x, _, body = body.dest_let()
+            x, t, body = body.dest_let()
             xs.append(x)
+            let_tm.setdefault(x, t)
 
         # body should equal to the left side of last_step
         if body != last_step.lhs:
@@ -2134,6 +2136,11 @@ class LetMacro(Macro):
         for hyp in last_step.hyps:
             if not (hyp.is_equals() and hyp.lhs in xs):
                 remain_hyps.append(hyp)
+            else:
+                # x = s can be discharged only if s is the term bound to x, or t = s is one of the premises
+                t, s = let_tm[hyp.lhs], hyp.rhs
+                if s != t and (t, s) not in ctx and (s, t) not in ctx:
+                    raise VeriTException("let", "Unable to find %s = %s in premises" % (t, s))
         return Thm(goal, tuple(remain_hyps), *(prop.hyps for prop in prevs[:-1]))
 
     def get_proof_term(self, args, prevs):
